@@ -47,15 +47,18 @@ PROPS = {
         note="Does not decide cross-file liveness logic inside remove() bodies or memory release. Trusted as C08."),
     "C38": dict(
         module="c38", func="run", level="proof", crates=None,
-        technique="trait-solver obligations (Send/Sync/auto traits per field) extracted by the rustc driver + capture/await-liveness scan on coroutine MIR",
+        technique="trait-solver obligations (Send/Sync/auto traits per field) extracted by the rustc driver + capture/await-liveness scan on coroutine MIR + containment walk for interior mutability under the shared analysis",
         text="Proves, with the compiler's own trait solver, that every `unsafe impl Send/Sync` on shared state is "
              "redundant (each field type is Send/Sync by auto-trait rules) and that all components of the shared "
              "roots (EmmyLuaAnalysis, everything inside Arc/RwLock/Mutex of the server context) are Send+Sync on their "
              "own; the one type whose assertion is not redundant (SemanticModel) is shown never to be captured by a "
              "spawned task nor live across an await. A future Rc/RefCell/rowan-cursor field anywhere under the analysis "
-             "compiles silently today and is reported here.",
-        note="Does not decide equality of concurrent and sequential results nor races inside dependencies. Trusted: "
-             "rustc trait solver, emmyfacts, the per-thread table (1 entry) in rules/c38.py."),
+             "compiles silently today and is reported here. R38c adds the containment walk behind the 'equal to sequential' "
+             "clause: no type contained in the shared analysis has an interior-mutable field (Mutex/RwLock/atomics/cells), and "
+             "the analysis crates have no mutable statics beyond the write-once i18n backends, so `&self` queries cannot write "
+             "anything another query reads.",
+        note="Does not decide equality of concurrent and sequential results beyond that necessary condition, nor races inside "
+             "dependencies. Trusted: rustc trait solver, emmyfacts, the per-thread table (1 entry) and the audited statics (3) in rules/c38.py."),
     "C26": dict(
         module="c26", func="run", level="proof", crates=["emmylua_ls"],
         technique="table evaluation from MIR (match arms, vec! literals, const items) and entry-by-entry agreement",
